@@ -1,7 +1,150 @@
-import Chain33Model.Model.C10
+import Chain33Model.Proofs.C10
 /-!
-C10 — property theorems (work in progress).
+C10 — Indexed tables keep rows and indexes consistent.  Property theorems only.
+
+Vocabulary (Model/C10.lean): `run t ops` buffers operations in the table cache (`Table.Add/Replace/
+Update/Del`), `saveKVs` is the kv list `Table.Save` returns, `applyKVs` writes it
+(`util.SaveKVList`).  The specification is a map `Spec = pk → Option Row` with `specStep`/`specRun`
+(Add fails exactly when the key is present …).  `Rep db m`: for every primary key without the '-'
+separator the db holds exactly the encoding of `m pk` — the data record and one entry per index
+under the row's value and under no other value (no stale, no missing entry).
 -/
 namespace C10
+open C09 (Bytes get)
+
+/-- FULL statement of C10 for one save: any buffered operation sequence answers like the map and
+the save brings the db to the encoding of the map after the operations. -/
+def multi_op_refines_full : Prop :=
+  ∀ (db : TDB) (m : Spec) (ops : List Op),
+    Rep db m → (∀ op ∈ ops, NoSep op.pk) →
+    (run { db := db } ops).2 = (specRun m ops).2 ∧
+    ∃ kvs, saveKVs (run { db := db } ops).1 = some kvs ∧ Rep (applyKVs db kvs) (specRun m ops).1
+
+/-- If each primary key is touched at most once between two saves, the table behaves like the
+map: every operation answers as the map does (Add fails exactly when the key is present, Update /
+Del exactly when it is absent) and `Save` brings the db to the encoding of the map after the
+operations — data records and every index, no stale and no missing entry. -/
+theorem single_op_per_key_refines (db : TDB) (m : Spec) (ops : List Op)
+    (hrep : Rep db m) (hns : ∀ op ∈ ops, NoSep op.pk) (hnd : (ops.map Op.pk).Nodup) :
+    (run { db := db } ops).2 = (specRun m ops).2 ∧
+    ∃ kvs, saveKVs (run { db := db } ops).1 = some kvs ∧ Rep (applyKVs db kvs) (specRun m ops).1 := by
+  have hrun := run_miss db m ops { db := db } rfl (fun op hop => hrep op.pk (hns op hop)) hnd
+    (by intro op _ e he; cases he)
+  have hspec := specRun_nodup m ops hnd
+  obtain ⟨_, hrows, hres⟩ := hrun
+  constructor
+  · rw [hres, hspec.1]
+    apply List.map_congr_left
+    intro op _
+    exact rowOfSpec_res m op
+  · have hsave : saveKVs (run { db := db } ops).1 =
+        some (delDupKey ((rowsOf m ops).map rowKVs).flatten) := by
+      unfold saveKVs
+      rw [hrows]
+      simp only [List.nil_append]
+      rw [mapM_saveRow]
+      · rfl
+      · intro r hr
+        simp only [rowsOf, List.mem_filterMap] at hr
+        obtain ⟨op, _, hop⟩ := hr
+        exact saveRow_rowOfSpec m op r hop
+    refine ⟨_, hsave, ?_⟩
+    intro p hp
+    have hfinal := hspec.2 p
+    cases hf : ops.find? (fun op => op.pk == p) with
+    | none =>
+      rw [hf] at hfinal
+      apply repAtG_congr (get db) _ m _ p _ hfinal.symm (hrep p hp)
+      intro key hk
+      rw [get_applyKVs, lastW_delDupKey, lastW_rows m ops p key hp hk hns hnd, hf]
+      rfl
+    | some op =>
+      rw [hf] at hfinal
+      have hopp : op.pk = p := by simpa using List.find?_some hf
+      have hopm : op ∈ ops := List.mem_of_find?_eq_some hf
+      have hB := op_kvs_correct (get db) m op (hns op hopm) (hrep op.pk (hns op hopm))
+      rw [hopp] at hB
+      apply repAtG_congr _ _ _ _ p _ hfinal.symm hB
+      intro key hk
+      rw [get_applyKVs, lastW_delDupKey, lastW_rows m ops p key hp hk hns hnd, hf]
+
+/-! ### witnesses: several operations on one key before a save -/
+
+/-- the empty db encodes the empty map. -/
+theorem rep_empty : Rep [] (fun _ => none) := by
+  intro p _
+  exact ⟨rfl, fun _ _ _ => rfl⟩
+
+def p0 : Bytes := [112, 48]
+def v0 : Bytes := [118, 48]
+def v1 : Bytes := [118, 49]
+def r0 : Row := ⟨p0, v0, v0, [100]⟩
+
+/-- db and map after `Add r0; Save` on the empty table (obtained from the theorem above, so that
+`Rep db1 m1` holds by construction). -/
+def db1 : TDB := applyKVs [] (addRow ⟨.add, p0, r0, none⟩)
+def m1 : Spec := (specRun (fun _ => none) [.add r0]).1
+
+theorem rep_db1 : Rep db1 m1 := by
+  have h := single_op_per_key_refines [] (fun _ => none) [.add r0] rep_empty
+    (by intro op hop; simp only [List.mem_singleton] at hop; subst hop; decide) (by simp)
+  obtain ⟨_, kvs, hk, hrep⟩ := h
+  have : kvs = addRow ⟨.add, p0, r0, none⟩ := by
+    have h2 : saveKVs (run { db := [] } [.add r0]).1 = some (addRow ⟨.add, p0, r0, none⟩) := by decide
+    rw [h2] at hk
+    exact (Option.some.inj hk).symm
+  rw [this] at hrep
+  exact hrep
+
+/-- non-vacuity of `single_op_per_key_refines`: a stored row, three distinct keys touched (one
+update that changes an indexed field, one add, one failing del). -/
+example :
+    Rep db1 m1 ∧
+    (run { db := db1 } [.update ⟨p0, v1, v0, [101]⟩, .add ⟨[112, 49], v0, v1, [102]⟩, .del [112, 50]]).2
+      = [.ok, .ok, .notfound] :=
+  ⟨rep_db1, by decide⟩
+
+/-- REFUTED (S-C10a): `Del p0; Add p0` before a save — the map says the Add succeeds (the key is
+absent), the table answers dup.  Replayed on the code by corpus/C10/s_c10a.ops. -/
+theorem multi_op_refines_full_false_a : ¬ multi_op_refines_full := by
+  intro h
+  have := (h db1 m1 [.del p0, .add r0] rep_db1
+    (by intro op hop; simp only [List.mem_cons, List.not_mem_nil, or_false] at hop
+        rcases hop with h | h <;> subst h <;> decide)).1
+  revert this
+  decide
+
+/-- REFUTED (S-C10b): `Del p0; Replace p0` (f2 changed, f1 unchanged) before a save — the saved db
+has no f1 index entry for the present row.  corpus/C10/s_c10b.ops. -/
+theorem multi_op_refines_full_false_b : ¬ multi_op_refines_full := by
+  intro h
+  obtain ⟨_, kvs, hk, hrep⟩ := h db1 m1 [.del p0, .replace ⟨p0, v0, v1, [100]⟩] rep_db1
+    (by intro op hop; simp only [List.mem_cons, List.not_mem_nil, or_false] at hop
+        rcases hop with h | h <;> subst h <;> decide)
+  have h2 : saveKVs (run { db := db1 } [.del p0, .replace ⟨p0, v0, v1, [100]⟩]).1 = some
+      [(dataKey p0, some (.row p0 ⟨p0, v0, v1, [100]⟩)), (indexKey nameF1 v0 p0, none),
+       (indexKey nameF2 v0 p0, none), (indexKey nameF2 v1 p0, some (.pk p0))] := by decide
+  rw [h2] at hk
+  have hkvs := (Option.some.inj hk).symm
+  subst hkvs
+  have := (hrep p0 (by decide)).2 (nameF1, Row.f1) (by simp [indexes]) v0
+  revert this
+  decide
+
+/-- REFUTED (S-C10c): `Update p0` (f1 changed) then `Del p0` before a save — the old f1 index entry
+stays in the db although the row is gone.  corpus/C10/s_c10c.ops. -/
+theorem multi_op_refines_full_false_c : ¬ multi_op_refines_full := by
+  intro h
+  obtain ⟨_, kvs, hk, hrep⟩ := h db1 m1 [.update ⟨p0, v1, v0, [100]⟩, .del p0] rep_db1
+    (by intro op hop; simp only [List.mem_cons, List.not_mem_nil, or_false] at hop
+        rcases hop with h | h <;> subst h <;> decide)
+  have h2 : saveKVs (run { db := db1 } [.update ⟨p0, v1, v0, [100]⟩, .del p0]).1 = some
+      [(dataKey p0, none), (indexKey nameF1 v1 p0, none), (indexKey nameF2 v0 p0, none)] := by decide
+  rw [h2] at hk
+  have hkvs := (Option.some.inj hk).symm
+  subst hkvs
+  have := (hrep p0 (by decide)).2 (nameF1, Row.f1) (by simp [indexes]) v0
+  revert this
+  decide
 
 end C10
